@@ -80,3 +80,10 @@ MUTANTS += [
     ("c05-or-group-capturing", "C05", NB, 'return f"(?:{self.join_or_instructions(child_regexes)})"', 'return f"({self.join_or_instructions(child_regexes)})"'),
     ("c05-not-group-capturing", "C05", NB, 'return f"(?:(?!{\'\'.join(child_regexes)}){self.skip_regex})"', 'return f"((?!{\'\'.join(child_regexes)}){self.skip_regex})"'),
 ]
+
+MUTANTS += [
+    ("c17-flag-type-error-not-raised", "C17", GD, '            raise ValueError("mnemonics and operands must be booleans")', '            return None'),
+    ("c17-sections-type-or-to-and", "C17", GD, "list) or not all(isinstance(section, str) for section in sections):", "list) and not all(isinstance(section, str) for section in sections):"),
+    ("c17-main-reg-not-required", "C17", DC, '            raise ValueError("main_reg is required for deref object")', '            return DerefObject(main_reg="", constant_offset=None, register_multiplier=None, constant_multiplier=None)'),
+    ("c17-negative-times-ignored", "C17", PB, '                        raise ValueError(f"times must not be negative: {times}")', '                        return TimesType(_min_times=1, _max_times=1)'),
+]
